@@ -21,7 +21,7 @@ Proved.
    (`cl_full_range_import_recomputes`, `cl_full_range_record_recomputed_witness`: 2·L₁ + L₂ before, L₁ + L₂ after); no message of the
    model reads it, and the difference stays constant along every later history (`cl_full_range_sim_step`, `cl_run_after_import_partial`).
 -/
-import OsmoVerif.Proofs.CLFullGenesisReach
+import OsmoVerif.Proofs.CLFullGenesisWF
 import OsmoVerif.Props.C08IncHist
 import OsmoVerif.Proofs.AccumGenesisReach
 import OsmoVerif.Props.C19
@@ -29,11 +29,38 @@ import OsmoVerif.Props.C19
 namespace OsmoVerif.Props.C19CL
 open OsmoVerif.CLInc OsmoVerif.CLFees OsmoVerif.CLPool
 
-/-- **Export → import of the layered pool state** (PARTIAL: for states with the store shape `FullWF`; full statement: for every state
-reachable by create / withdraw / add / transfer / swap / collect / incentive / advance / sync / collect-incentives histories — missing:
-`FullWF` as a reachable-state invariant). -/
-theorem cl_full_export_import_eq_partial {s : Full} (h : FullWF s) : exportImportFull s = some (canon s) :=
+/-- export → import on a state with the store shape `FullWF` (a decidable predicate) -/
+theorem cl_full_export_import_eq_of_wf {s : Full} (h : FullWF s) : exportImportFull s = some (canon s) :=
   exportImportFull_eq h
+
+/-- the initial state of a history satisfies the combined invariant (C07/C08 `IncInv`, position ids ascending, `FeeOrd`, `IncOrd`) -/
+theorem cl_init_genInv {spacing spf scale factor : Int} {auth : Nat} (hs : 0 < spacing) (hspf : CLBook.SpfOK spf) (hfac : 0 < factor) :
+    CLIncP.GenInv (C08IncHist.initI spacing spf scale factor auth) where
+  inv := C08IncHist.initI_inv hs hspf hfac
+  pos := List.Pairwise.nil
+  fee := CLFeesP.feeOrd_init spacing spf scale
+  inc := ⟨List.Pairwise.nil, fun a ha => by
+      have : a = {} := by
+        simp only [C08IncHist.initI, List.mem_cons, List.mem_nil_iff, or_false, or_self] at ha
+        exact ha
+      rw [this]; exact List.Pairwise.nil, List.Pairwise.nil, List.Pairwise.nil⟩
+
+/-- **NEW reachable-state invariant: the store shape `FullWF` holds in every reachable state** — growth-outside entries and uptime
+trackers exactly on the initialised ticks in tick order, exactly one spread-reward record per live position in id order, the uptime
+records and join times of the live positions in id order, incentive records in key order -/
+theorem cl_reachable_wf {spacing spf scale factor : Int} {auth : Nat} (hs : 0 < spacing) (hspf : CLBook.SpfOK spf) (hfac : 0 < factor)
+    (ops : List CLIncP.IOp) : FullWF (CLIncP.runI (C08IncHist.initI spacing spf scale factor auth) ops) :=
+  (CLIncP.genInv_run ops (cl_init_genInv hs hspf hfac)).wf
+
+/-- **Export → import of the layered pool state, on EVERY reachable state**: `ExportGenesis` does not panic, `InitGenesis` accepts the
+document, and the imported state is the exported one with the uptime-accumulator records and join times of positions that no longer
+exist removed — everything else (pool, ticks, positions, growth-outside values, trackers, accumulator values / totals, every record of a
+live position, incentive records, clocks, ids) is EQUAL. -/
+theorem cl_full_export_import_eq {spacing spf scale factor : Int} {auth : Nat} (hs : 0 < spacing) (hspf : CLBook.SpfOK spf)
+    (hfac : 0 < factor) (ops : List CLIncP.IOp) :
+    exportImportFull (CLIncP.runI (C08IncHist.initI spacing spf scale factor auth) ops) =
+      some (canon (CLIncP.runI (C08IncHist.initI spacing spf scale factor auth) ops)) :=
+  exportImportFull_eq (cl_reachable_wf hs hspf hfac ops)
 
 /-- **on EVERY reachable state the chain's own export is accepted**: for every history of create / withdraw / add / transfer / swap / collect /
 create-incentive / advance / sync / collect-incentives messages on a fresh pool (any tick spacing > 0, admissible spread factor, incentive
@@ -185,7 +212,7 @@ def clHist : List GOp :=
 def clMid : FullG := runG clInit clHist
 
 /-- all eight messages succeed; the store shape holds before and after the full withdrawal (the hypothesis of
-`cl_full_export_import_eq_partial` is satisfiable on a non-trivial state) -/
+`cl_full_export_import_eq_of_wf` holds on a non-trivial state; the history is an instance of `cl_reachable_wf`) -/
 theorem cl_demo_wf : FullWF clMid.full ∧ FullWF (runG clInit (clHist.take 7)).full ∧
     clMid.full.fees.pool.positions.map (·.id) = [1, 2] ∧ clMid.full.fees.pool.ticks.map (·.tick) = [-108000000, 342000000] ∧
     clMid.full.inc.records.map (·.id) = [1] := by
@@ -193,7 +220,7 @@ theorem cl_demo_wf : FullWF clMid.full ∧ FullWF (runG clInit (clHist.take 7)).
 
 /-- **(raw store) the uptime records of the fully withdrawn position 3 stay behind with zero shares in all six accumulators — and its
 join time in the model — and the import drops them**: plain equality `import (export s) = s` is false; everything else is reproduced
-(`cl_full_export_import_eq_partial`, `cl_canon_keeps`). -/
+(`cl_full_export_import_eq`, `cl_canon_keeps`). -/
 theorem cl_import_drops_dead_uptime_records_witness :
     clMid.full.inc.accs.map (fun a => a.recs.map (fun r => (r.id, r.shares))) =
       List.replicate 6 [(1, 159580700587508388058699999999), (2, 797903502937541940293499999999), (3, 0)] ∧
